@@ -564,6 +564,11 @@ func (u *Upstream) sendChunkAndWaitAck(ctx context.Context, msgChunk *message.Up
 	if !ok {
 		return
 	}
+	if result == nil {
+		// ack timeout: the chunk has not been acknowledged, so it stays stored and is retransmitted when the stream is resumed
+		u.logger.Warnf(u.ctx, "ack timeout of upstream chunk[seq:%v]", msgChunk.StreamChunk.SequenceNumber)
+		return
+	}
 
 	u.receivedAck.L.Lock()
 	defer u.receivedAck.L.Unlock()
